@@ -12,6 +12,7 @@ Record case := {
   c_clone : tnode;                      (* Go: built[0].Clone(m/d) *)
   c_dec_nodict : option tnode;          (* Go: DeserializeNoDict(SerializeNoDict(2^20)) of the concurrent merge *)
   c_dec_dict : option tnode;            (* Go: Deserialize(d, Serialize(d, 2^20)) of it, fresh dictionary *)
+  c_dec_stale : option tnode;           (* Go: Deserialize(empty dictionary, the same bytes): placeholder names *)
   c_src_untouched : bool                (* Go: sources dumped identical before/after merge and clone *)
 }.
 
@@ -59,6 +60,9 @@ Definition check_case (c : case) : verdict :=
     spec (match c_dec_nodict c, c_dec_dict c with
           | Some t1, Some t2 => pm_eqb (pnz (pnorm (t_den t1))) spec_den && pm_eqb (pnz (pnorm (t_den t2))) spec_den
           | _, _ => false end) "decoded tree: per-stack self values are not the sum of the inputs";
+    spec (match c_dec_stale c, c_dec_dict c with
+          | Some t, Some t' => t_exactb t && Nat.eqb (t_size t) (t_size t')
+          | _, _ => false end) "decoded with a dictionary that lacks the names: total <> self + children, or frames collapsed";
     (* --- model vs implementation --- *)
     corr (list_eqb t_eqb mbuilt (c_built c)) "t_insert model differs from Tree.Insert";
     corr (match merge_serial mbuilt with Some t => t_eqb t (c_serial c) | None => false end) "t_merge model differs from Tree.Merge";
